@@ -1142,6 +1142,180 @@ example : ([
         glue4 := [("ns1.sub.evil.test.".toList, [[198, 51, 100, 5]]), ("ns2.sub.evil.test.".toList, [[198, 51, 100, 6]])] } := by
   decide
 
+/-! ## winner selection: an invalid referral never wins over a usable reply -/
+
+/-- **`pickFallbackResponse` hands back an invalid referral only as the very
+last resort among messages**: when it does, no authority sent any negative
+reply, no policy limit was hit, and it is the first one set aside. -/
+theorem fallback_config_is_last_resort (resps : List Nat) (ncfg : Nat) (fatal : List FatalKind) (j : Nat)
+    (h : pickFallback resps ncfg fatal = Fallback.config j) :
+    j = 0 ∧ resps = [] ∧ 0 < ncfg ∧ fatal.contains FatalKind.workLimit = false ∧
+      fatal.contains FatalKind.attemptLimit = false := by
+  unfold pickFallback at h
+  split at h
+  · cases h
+  · rename_i hw
+    split at h
+    · cases h
+    · split at h
+      · cases h
+      · rename_i ha
+        split at h
+        · cases h
+        · rename_i hr
+          split at h
+          · rename_i hc
+            simp only [Fallback.config.injEq] at h
+            refine ⟨h.symm, ?_, hc, by simpa using hw, by simpa using ha⟩
+            cases resps with
+            | nil => rfl
+            | cons x t => simp at hr
+          · split at h <;> cases h
+
+theorem lookupSelect_spec (level : Nat) : ∀ (arr : List Arrival) (pos : Nat) (resps : List Nat) (ncfg : Nat)
+    (fatal : List FatalKind),
+    (∀ p, lookupSelect level arr pos resps ncfg fatal = LookupOutcome.winner p →
+      pos ≤ p ∧ arr[p - pos]? = some Arrival.usable ∧ ∀ k, k < p - pos → arr[k]? ≠ some Arrival.usable) ∧
+    (∀ j, lookupSelect level arr pos resps ncfg fatal = LookupOutcome.fallback (Fallback.config j) →
+      resps = [] ∧ ∀ a ∈ arr, a ≠ Arrival.usable ∧ ∀ rc, a ≠ Arrival.negative rc) := by
+  intro arr
+  induction arr with
+  | nil =>
+    intro pos resps ncfg fatal
+    simp only [lookupSelect]
+    refine ⟨(by intro p h; cases h), ?_⟩
+    intro j h
+    simp only [LookupOutcome.fallback.injEq] at h
+    exact ⟨(fallback_config_is_last_resort resps ncfg fatal j h).2.1, by simp⟩
+  | cons a t ih =>
+    intro pos resps ncfg fatal
+    cases a with
+    | failed k =>
+      cases k with
+      | workLimit =>
+        simp only [lookupSelect]
+        exact ⟨(by intro p h; cases h), (by intro j h; simp at h)⟩
+      | attemptLimit =>
+        simp only [lookupSelect]
+        obtain ⟨i1, i2⟩ := ih (pos + 1) resps ncfg (fatal ++ [FatalKind.attemptLimit])
+        constructor
+        · intro p h
+          obtain ⟨a1, a2, a3⟩ := i1 p h
+          refine ⟨by omega, ?_, ?_⟩
+          · have : p - pos = (p - (pos + 1)) + 1 := by omega
+            rw [this, List.getElem?_cons_succ]; exact a2
+          · intro k hk
+            cases k with
+            | zero => simp
+            | succ k => simpa using a3 k (by omega)
+        · intro j h
+          obtain ⟨b1, b2⟩ := i2 j h
+          refine ⟨b1, ?_⟩
+          intro a ha
+          rcases List.mem_cons.mp ha with rfl | ha
+          · exact ⟨by simp, by intro rc; simp⟩
+          · exact b2 a ha
+      | network =>
+        simp only [lookupSelect]
+        obtain ⟨i1, i2⟩ := ih (pos + 1) resps ncfg (fatal ++ [FatalKind.network])
+        constructor
+        · intro p h
+          obtain ⟨a1, a2, a3⟩ := i1 p h
+          refine ⟨by omega, ?_, ?_⟩
+          · have : p - pos = (p - (pos + 1)) + 1 := by omega
+            rw [this, List.getElem?_cons_succ]; exact a2
+          · intro k hk
+            cases k with
+            | zero => simp
+            | succ k => simpa using a3 k (by omega)
+        · intro j h
+          obtain ⟨b1, b2⟩ := i2 j h
+          refine ⟨b1, ?_⟩
+          intro a ha
+          rcases List.mem_cons.mp ha with rfl | ha
+          · exact ⟨by simp, by intro rc; simp⟩
+          · exact b2 a ha
+    | negative rc =>
+      simp only [lookupSelect]
+      split
+      · refine ⟨(by intro p h; cases h), ?_⟩
+        intro j h
+        simp only [LookupOutcome.fallback.injEq] at h
+        have := (fallback_config_is_last_resort _ ncfg fatal j h).2.1
+        simp at this
+      · obtain ⟨i1, i2⟩ := ih (pos + 1) (resps ++ [rc]) ncfg fatal
+        constructor
+        · intro p h
+          obtain ⟨a1, a2, a3⟩ := i1 p h
+          refine ⟨by omega, ?_, ?_⟩
+          · have : p - pos = (p - (pos + 1)) + 1 := by omega
+            rw [this, List.getElem?_cons_succ]; exact a2
+          · intro k hk
+            cases k with
+            | zero => simp
+            | succ k => simpa using a3 k (by omega)
+        · intro j h
+          have := (i2 j h).1
+          simp at this
+    | invalidReferral =>
+      simp only [lookupSelect]
+      obtain ⟨i1, i2⟩ := ih (pos + 1) resps (ncfg + 1) fatal
+      constructor
+      · intro p h
+        obtain ⟨a1, a2, a3⟩ := i1 p h
+        refine ⟨by omega, ?_, ?_⟩
+        · have : p - pos = (p - (pos + 1)) + 1 := by omega
+          rw [this, List.getElem?_cons_succ]; exact a2
+        · intro k hk
+          cases k with
+          | zero => simp
+          | succ k => simpa using a3 k (by omega)
+      · intro j h
+        obtain ⟨b1, b2⟩ := i2 j h
+        refine ⟨b1, ?_⟩
+        intro a ha
+        rcases List.mem_cons.mp ha with rfl | ha
+        · exact ⟨by simp, by intro rc; simp⟩
+        · exact b2 a ha
+    | usable =>
+      simp only [lookupSelect]
+      constructor
+      · intro p h
+        simp only [LookupOutcome.winner.injEq] at h
+        subst h
+        exact ⟨Nat.le_refl _, by simp, by intro k hk; omega⟩
+      · intro j h; cases h
+
+/-- **An invalid referral never wins over a usable reply** (model of
+`Resolver.lookup`'s result loop, for every arrival order): the message returned
+at once is the first usable reply to arrive — never a referral `validReferral`
+refused —, and an invalid referral comes back through the fallback only if NO
+authority delivered a usable or a negative reply at all (`processDelegation`
+then refuses it again: `delegation_stored_only_if_valid`). -/
+theorem invalid_referral_never_wins (level : Nat) (arr : List Arrival) :
+    (∀ p, lookupSelect level arr 0 [] 0 [] = LookupOutcome.winner p →
+      arr[p]? = some Arrival.usable ∧ ∀ k, k < p → arr[k]? ≠ some Arrival.usable) ∧
+    (∀ j, lookupSelect level arr 0 [] 0 [] = LookupOutcome.fallback (Fallback.config j) →
+      ∀ a ∈ arr, a ≠ Arrival.usable ∧ ∀ rc, a ≠ Arrival.negative rc) := by
+  obtain ⟨h1, h2⟩ := lookupSelect_spec level arr 0 [] 0 []
+  constructor
+  · intro p h
+    obtain ⟨_, a2, a3⟩ := h1 p h
+    exact ⟨by simpa using a2, by intro k hk; exact a3 k (by simpa using hk)⟩
+  · intro j h
+    exact (h2 j h).2
+
+-- a fast invalid referral, then a timeout, then the honest reply: the honest reply wins
+example : lookupSelect 2 [Arrival.invalidReferral, Arrival.failed FatalKind.network, Arrival.usable] 0 [] 0 []
+    = LookupOutcome.winner 2 := by decide
+-- only invalid referrals and failures: the first invalid referral comes back (and processDelegation refuses it)
+example : lookupSelect 2 [Arrival.invalidReferral, Arrival.failed FatalKind.network, Arrival.invalidReferral] 0 [] 0 []
+    = LookupOutcome.fallback (Fallback.config 0) := by decide
+-- a SERVFAIL from another server of the set is preferred to the invalid referral
+example : lookupSelect 2 [Arrival.invalidReferral, Arrival.negative 2] 0 [] 0 []
+    = LookupOutcome.fallback (Fallback.resp 0) := by decide
+example : pickFallback [2, 5, 3] 1 [FatalKind.network] = Fallback.resp 2 := by decide
+
 /-! ## the alias chase (`Cache.additionalAnswer`) -/
 
 /-- **Every record of the composed answer has a known provenance.** After the
@@ -1281,7 +1455,8 @@ theorem guards_are_wired :
     SdnsVerif.Gen.C07.shape_nsaddr_lookups_use_searchAddrs = true ∧
     SdnsVerif.Gen.C07.shape_dname_target_resolved_separately = true ∧
     SdnsVerif.Gen.C07.shape_addresses_built_only_by_usableAddr = true ∧
-    SdnsVerif.Gen.C07.shape_checkhosts_uses_filtered_lookups = true := by decide
+    SdnsVerif.Gen.C07.shape_checkhosts_uses_filtered_lookups = true ∧
+    SdnsVerif.Gen.C07.shape_lookup_sets_invalid_referrals_aside = true := by decide
 
 /-- The compiled `usableAddr` rejects every loopback probe (127.0.0.1 in both
 spellings, the ends of 127/8, ::1) and every address of every local interface,
